@@ -238,8 +238,17 @@ def partition(draw, n, kmin=1, kmax=None):
 @st.composite
 def relabelling(draw, k, force_reversing=False):
     """Injective map from labels 1..k to integers; returns list m with m[l-1] = new label."""
-    kind = draw(st.sampled_from(["perm", "zero", "arb", "rev", "revarb"])) if not force_reversing \
-        else draw(st.sampled_from(["rev", "revarb", "perm"]))
+    kind = draw(st.sampled_from(["rev", "neg", "zero", "arb", "large-adjacent", "perm", "revarb", "around-zero", "frac"])) if not force_reversing \
+        else draw(st.sampled_from(["rev", "revarb", "neg", "large-adjacent", "perm", "frac"]))
+    if kind == "neg":                 # all labels negative (max label + 1 is below the number of modules)
+        return list(draw(st.permutations(list(range(-k - draw(st.integers(0, 5)), 0))[:k])))
+    if kind == "around-zero":         # -1, 0, 1, ...
+        return list(draw(st.permutations(list(range(-1, k - 1)))))
+    if kind == "large-adjacent":      # consecutive labels far from zero (relative spacing ~1e-6)
+        off = draw(st.sampled_from([10 ** 5, 250000, 10 ** 6, 10 ** 7]))
+        return [off + v for v in draw(st.permutations(list(range(1, k + 1))))]
+    if kind == "frac":                # distinct non-integer labels sharing integer parts
+        return [v / 4.0 for v in draw(st.permutations(list(range(1, k + 1))))]
     if kind == "perm":
         return list(draw(st.permutations(list(range(1, k + 1)))))
     if kind == "zero":
